@@ -566,7 +566,8 @@ def check_formulas(prog, rep, m):
         a, b, c = [sp.it.as_scalar(sp.it.ev(x)) for x in pv[0].args]
         wd = sp.it.env['w']
         okp = a == wd and b == Rat.const(100) + wd and c == wd
-    cap = any(isinstance(s, ast.If) and norm(s.test).replace(' ', '') in ('%s[-1]>100.0' % pn, '%s[-1]>100' % pn) and
+    from ..astutil import canon_test_text
+    cap = any(isinstance(s, ast.If) and canon_test_text(s.test) in ('%s[-1]>100.0' % pn, '%s[-1]>100' % pn) and
               any(norm(x).replace(' ', '') in ('%s[-1]=100.0' % pn, '%s[-1]=100' % pn) for x in s.body) for s in q.own_nodes())
     rep.add('K4', q, 'quantile', 'percentile levels w, 2w, ... capped at 100', q.node.lineno, okw and okp and cap,
             'the k percentile levels must be 100*i/k, i = 1..k, the last one capped at 100 (w ok: %s, levels ok: %s, cap: %s)'
